@@ -1,0 +1,9 @@
+//go:build verif
+
+package app
+
+import "github.com/cosmos/cosmos-sdk/types/module"
+
+// VerifModuleManager exposes the module manager to the verification harness
+// (export / import of the application state on an uncommitted context).
+func (app *App) VerifModuleManager() *module.Manager { return app.mm }
